@@ -173,6 +173,17 @@ CHECKS = {
         note=TRUST + "the footprint hypotheses (no hidden global state; justified fields not read) are assumptions exercised by "
              "the oracle; Lua-internal sharing is not modelled (two known findings).",
         ref="DESIGN.md section 4 C09"),
+    "C11": dict(
+        technique="Coq proof (invariant over every crash point of the backup/overwrite/close flow and any number of interrupted restores) + kill-point enumeration on the real process",
+        text="Theorems c11_crash_safe and c11_overwrite_atomic on the file-protocol model (database, write-ahead log, backup, "
+             "temporary backup name): after a kill at any step and any number of killed reopen attempts, the next open shows "
+             "exactly the backed-up content. The model is tied to the code by running the real flows (override, restore after "
+             "clean and unclean override, overwrite only, backup only) in a child process that is killed with os._exit at every "
+             "executed line of backup_db/create_db/close_db_conn/overwrite_pages/add_page (two database sizes, some followed by "
+             "a second kill during reopen) and checking integrity_check and the pages a new context sees. PARTIAL: SQLite and "
+             "file-system atomicity are assumptions; power loss is not injected.",
+        note=TRUST + "SQLite atomic commit/WAL recovery/backup API and rename atomicity are model definitions.",
+        ref="DESIGN.md section 4 C11"),
 }
 
 NOT_YET = "check not built yet in this round (planned, see DESIGN.md section 8)"
